@@ -253,9 +253,13 @@ func init() {
 				if c > max(n, 1) {
 					continue
 				}
+				props := []string{"C08", "C05", "C16", "C17"}
+				if n == 3 && c >= 2 {
+					props = append(props, "C01")
+				}
 				Register(&Scenario{
 					Name:  name("batch/%s/n%dc%d", kp, n, c),
-					Props: []string{"C08", "C05", "C01", "C16", "C17"},
+					Props: props,
 					Mode:  "NB", Quick: 2, Thorough: 3, Shards: 4,
 					Body: func(h *H) {
 						h.CrashProp = "C08"
